@@ -35,6 +35,10 @@ impl Scratch {
         let root = std::fs::canonicalize(&root).expect("scratch canonicalize");
         Scratch { root }
     }
+    /// Wraps an existing scratch root (child process of the hard-kill validation).
+    pub fn adopt(root: &Path) -> Scratch {
+        Scratch { root: root.to_path_buf() }
+    }
     pub fn top(&self) -> PathBuf {
         // the directory directly under the base that must be removed
         let mut p = self.root.clone();
